@@ -24,119 +24,201 @@ LEVEL_TEXT = (
 )
 
 GRAMMAR_MOD = "geneticengine.grammar.grammar"
-WALKERS = {
-    "register_type": f"{GRAMMAR_MOD}:Grammar.register_type",
-    "collect_types": f"{GRAMMAR_MOD}:Grammar.collect_types",
-    "get_distance_to_terminal": f"{GRAMMAR_MOD}:Grammar.get_distance_to_terminal",
-    "explode_generics": f"{GRAMMAR_MOD}:Grammar.preprocess.<locals>.explode_generics",
-    "usable_grammar": f"{GRAMMAR_MOD}:Grammar.usable_grammar",
-    "strip_annotations": "geneticengine.grammar.utils:strip_annotations",
-}
-WRAPPERS = ("list", "annotated", "union", "tuple")
+WALKER_NAMES = ("register_type", "collect_types", "explode_generics", "usable_grammar", "strip_annotations")
 
 
-def _covers(forms: set[str]) -> dict[str, bool]:
-    return {
-        "list": "list" in forms,
-        "annotated": "annotated" in forms,
-        "union": "union" in forms or "generic" in forms,
-        "tuple": "tuple" in forms or "generic" in forms,
-    }
+def _find_walker(ctx: Ctx, name: str) -> FunctionInfo:
+    """the function called <name> (or _<name>) in the grammar package: method, nested or module-level"""
+    cands = [f for f in ctx.prog.functions.values() if f.module.name.startswith("geneticengine.grammar")
+             and f.name in (name, "_" + name) and isinstance(f.node, (ast.FunctionDef, ast.AsyncFunctionDef))]
+    if len(cands) != 1:
+        raise AnalysisError(f"C05: walker {name}: {len(cands)} candidates in geneticengine.grammar (anchor changed)")
+    return cands[0]
+
+
+def _nested_types():
+    from ..treemodel import A, B, MH, MHL, TypeV
+    ann = lambda t, m: TypeV("annotated", f"Annotated[{t.name}, {m.tag}]", (t,), m)   # noqa: E731
+    lst = lambda t: TypeV("list", f"list[{t.name}]", (t,))                             # noqa: E731
+    tup = lambda *ts: TypeV("tuple", f"tuple[{', '.join(t.name for t in ts)}]", ts)    # noqa: E731
+    uni = lambda *ts: TypeV("union", f"Union[{', '.join(t.name for t in ts)}]", ts)    # noqa: E731
+    return [
+        (lst(A), {A}), (ann(A, MH), {A}), (uni(A, B), {A, B}), (tup(A, B), {A, B}),
+        (ann(lst(A), MHL), {A}), (lst(ann(A, MH)), {A}), (uni(lst(A), B), {A, B}), (tup(lst(A), B), {A, B}), (lst(tup(A, B)), {A, B}),
+    ]
 
 
 def walker_rule(ctx: Ctx, rid: str, only: tuple = ()) -> None:
+    """Leaf coverage by interpretation: every walker over field types is interpreted (sa/modelinterp, the repository's own
+    type-form predicates inlined over a model of the typing runtime, recursive calls followed) on nine nested wrapper types
+    built from list / Annotated / Union / tuple over the classes A and B.  It must reach exactly the classes inside: yield /
+    register / return / hand on every one of them and never stop at (or fail on) a wrapper."""
+    from ..modelinterp import BUILTIN_TYPES, Budget, Interp, LocalFn, Sym, TypeV, UNKNOWN, Effect, Obj
+    from ..treemodel import A, B, PROD
     prog = ctx.prog
     n = 0
-    for wname, full in WALKERS.items():
+    for wname in WALKER_NAMES:
         if only and wname not in only:
             continue
-        f = prog.functions.get(full)
-        if f is None:
-            raise AnalysisError(f"C05: walker {full} missing")
-        chains = dispatch_chains(f, min_forms=1)
-        # usable_grammar's wrapper chain lives inside a loop over fields
-        if not chains:
-            ctx.ob(rid, f, f.node, f"{wname}: wrapper dispatch", None, "no dispatch chain over type forms found")
-            continue
-        var, br = max(chains, key=lambda x: sum(1 for b in x[1] if b.form in ("list", "annotated", "union", "generic", "tuple") or b.form.startswith("multi:")))
-        forms = set()
-        for b in br:
-            if not b.negated:
-                forms |= set(b.form.split(":", 1)[1].split("+")) if b.form.startswith("multi:") else {b.form}
-        cov = _covers(forms)
-        required = ("list", "annotated") if wname == "strip_annotations" else WRAPPERS
-        for w in required:
+        f = _find_walker(ctx, wname)
+        for ty, leaves in _nested_types():
+            if wname == "strip_annotations" and any(k in ty.name for k in ("Union", "tuple")):
+                continue   # strip_annotations is specified for list / annotated chains only
+            fields = {PROD: [("f1", ty)]}
+
+            def call_model(it, call, env, args, kwargs, fields=fields):
+                nm = call_name(call)
+                if nm == "is_abstract":
+                    return False
+                if nm == "is_dataclass" and len(args) == 1:
+                    return isinstance(args[0], TypeV) and args[0].kind == "class"
+                if nm == "get_arguments" and len(args) == 1:
+                    return [[a, t] for a, t in fields.get(args[0], [])] if isinstance(args[0], TypeV) else UNKNOWN
+                if nm == "mro":
+                    recv = it.ev(call.func.value, env, 9) if isinstance(call.func, ast.Attribute) else None
+                    return [recv, BUILTIN_TYPES["object"]]
+                if nm == "extract_grammar":
+                    it.trace.append(Effect("call", nm, tuple(list(a) if isinstance(a, list) else a for a in args), {}, node=call, fn=it.fn_stack[-1]))
+                    return Sym("grammar")
+                if nm == "add" and isinstance(call.func, ast.Attribute) and (dotted(call.func.value) or "").endswith("all_nodes") and args:
+                    it.trace.append(Effect("call", "all_nodes.add", (args[0],), {}, node=call, fn=it.fn_stack[-1]))
+                    return None
+                if nm == "register_alternative":
+                    from ..modelinterp import _NONE
+                    return _NONE
+                return None
+
+            it = Interp(prog, f.cls, lambda *_: None, call_model, max_depth=8, max_traces=64)
+            it.allow_recursion = True
+            env: dict = {"self": Sym("self"), "self.all_nodes": set(), "self.considered_subtypes": [],
+                         "self.alternatives": {}, "self.terminals": set(), "self.non_terminals": set(), "self.starting_symbol": PROD}
+            params = [p_ for p_ in f.params if p_ != "self"]
+            if wname == "explode_generics":
+                env[params[0]] = [ty]
+            elif wname == "usable_grammar":
+                pass
+            else:
+                env[params[0]] = ty
             n += 1
-            ok = cov[w]
-            ctx.ob(rid, f, br[0].test or f.node, f"{wname} unwraps {w} types", ok,
-                   "" if ok else f"{wname} has no branch for {w} types: a {w} is passed on (or stored) as it is, so the symbols inside it are "
-                                 + ("not seen by the reachability / recursion analysis (a production that is recursive only through a tuple "
-                                    "field is not in recursive_prods)" if wname == "explode_generics" else "not analysed"))
-        # closure: the unwrapped type flows back into a handler of all wrapper forms
-        for b in br:
-            if b.negated or not (b.form in ("list", "annotated", "union", "generic", "tuple") or b.form.startswith("multi:")):
+            desc = f"{wname} reaches the symbols inside {ty.name}"
+            try:
+                runs = it.run(f, env)
+            except Budget:
+                ctx.ob(rid, f, f.node, desc, None, "too many interpretations")
                 continue
-            n += 1
-            how, ok, why = _flows_back(ctx, f, b, wname)
-            ctx.ob(rid, f, b.test, f"{wname}: inner type of a {b.form} is analysed again ({how})", ok, "" if ok else why)
-    ctx.floor(rid, n, 4 if only else 24, "walker coverage / closure obligations")
-
-
-def _flows_back(ctx: Ctx, f: FunctionInfo, b, wname: str) -> tuple[str, bool, str]:
-    body_calls = [c for s in b.body for c in ast.walk(s) if isinstance(c, ast.Call)]
-    self_name = f.qualname.split(".")[-1]
-    rec = [c for c in body_calls if call_name(c) == self_name]
-    if rec:
-        # the recursive call must receive the *immediate* parameter(s) of the wrapper, not a type stripped of several
-        # wrapper levels by another walker (which would bypass the branches of the levels it removes)
-        strippers = {"strip_annotations", "strip_dependencies"}
-        for c in rec:
-            for a in c.args:
-                for x in ast.walk(a):
-                    if isinstance(x, ast.Call) and call_name(x) in strippers:
-                        return "recursive call on a multi-level strip", False, (
-                            f"the {b.form} branch recurses on '{norm(a)[:50]}': {call_name(x)} removes list and annotated wrappers at once, so "
-                            f"the branch that accounts for the removed level (a list costs int(expansion_depthing)) is skipped and "
-                            f"Annotated[list[T], ..] fields are reported one level too shallow in expansion-depthing mode")
-        return "recursive call", True, ""
-    # worklist: add(k) / append -> consumer loop elsewhere in the function
-    adds = [c for c in body_calls if call_name(c) in ("add", "append") and c.args]
-    if adds:
-        # the consumer: the loop that pops from the worklist; it must itself handle wrapper forms
-        loops = [l for l in walk_local(f.node) if isinstance(l, ast.While)]
-        consumer_forms: set[str] = set()
-        for l in loops:
-            for st in l.body:
-                if isinstance(st, ast.If):
-                    for nb in chain(st):
-                        consumer_forms.add(nb.form)
-        cov = _covers(consumer_forms)
-        ok = all(cov.values())
-        missing = [k for k, v in cov.items() if not v]
-        return "worklist", ok, (f"the unwrapped type is pushed on a worklist whose consumer handles only abstract symbols, dataclasses and bare "
-                                f"builtins, not {missing}: a nested wrapper such as Annotated[list[int], ListSizeBetween(..)] reaches the "
-                                f"consumer's 'assert False' (usable_grammar() raises AssertionError)")
-    ys = [y for s in b.body for y in ast.walk(s) if isinstance(y, (ast.Yield, ast.Return)) and y.value is not None]
-    if ys:
-        direct = [y for y in ys if not any(isinstance(c, ast.Call) and call_name(c) == self_name for c in ast.walk(y.value))]
-        if direct:
-            return "returned as is", False, (f"the inner type of a {b.form} is handed back without being analysed again ('{norm(direct[0])[:60]}'): "
-                                             f"a wrapper nested inside it (Annotated[list[T], ..]) is not unwrapped, so its symbols are lost")
-    return "no use", True, ""
+            verdict: Optional[bool] = True
+            why = ""
+            for trace, rv, notes in runs:
+                raised = [e for e in trace if e.kind == "raise"]
+                got: Optional[set] = None
+                if wname in ("explode_generics", "collect_types"):
+                    vals = []
+                    okv = True
+                    for e in trace:
+                        if e.kind == "yield":
+                            if e.name == "from":
+                                if isinstance(e.args[0], list):
+                                    vals += e.args[0]
+                                else:
+                                    okv = False
+                            else:
+                                vals.append(e.args[0])
+                    got = set(v for v in vals if isinstance(v, TypeV)) if okv else None
+                elif wname == "strip_annotations":
+                    got = {rv} if isinstance(rv, TypeV) else None
+                elif wname == "register_type":
+                    got = {e.args[0] for e in trace if e.kind == "call" and e.name == "all_nodes.add" and isinstance(e.args[0], TypeV)}
+                elif wname == "usable_grammar":
+                    eg = [e for e in trace if e.kind == "call" and e.name == "extract_grammar"]
+                    got = set(x for x in eg[0].args[0] if isinstance(x, TypeV)) if len(eg) == 1 and isinstance(eg[0].args[0], list) else None
+                    if raised:
+                        verdict, why = False, (f"usable_grammar fails ({raised[0].name}) on a grammar with a field of type {ty.name}: what it takes out "
+                                               f"of a wrapper is pushed on a worklist whose consumer does not handle wrapper forms")
+                        break
+                if raised and wname != "usable_grammar":
+                    continue
+                if got is None:
+                    verdict, why = (None if verdict is True else verdict), (why or "the values produced by the walker are not followed")
+                    continue
+                classes = {t for t in got if t.kind == "class" and t != PROD}
+                wrappers = {t for t in got if t.kind in ("list", "tuple", "annotated", "union")}
+                missing = leaves - classes
+                if missing:
+                    verdict = False
+                    why = (f"{wname} does not reach {sorted(t.name for t in missing)} inside {ty.name}" +
+                           (f" (it stops at {sorted(t.name for t in wrappers)})" if wrappers else "") +
+                           ": the symbols inside that wrapper are not seen by the analysis built on it")
+                    break
+                if wrappers and wname in ("explode_generics", "strip_annotations", "register_type", "usable_grammar") and wname != "collect_types":
+                    verdict = False
+                    why = f"{wname} hands on the wrapper {sorted(t.name for t in wrappers)} itself as if it were a symbol"
+                    break
+            ctx.ob(rid, f, f.node, desc, verdict, why, witness={"type": ty.name})
+    # get_distance_to_terminal on nested wrappers: every wrapper level is charged (or not) like the single level
+    if not only:
+        from .depthrules import _gdt_model
+        from ..absint import Lin
+        from ..modelinterp import MaxV
+        g = ctx.fn(f"{GRAMMAR_MOD}:Grammar.get_distance_to_terminal")
+        types = {t.name: t for t, _ in _nested_types()}
+        for name, want_e in (("Annotated[list[A], MHL]", 1), ("list[Annotated[A, MH]]", 1)):
+            for e_flag in (False, True):
+                n += 1
+                try:
+                    runs = _gdt_model(ctx, types[name], e_flag)
+                except Budget:
+                    ctx.ob(rid, g, g.node, f"get_distance_to_terminal({name}) charges each wrapper level [expansion_depthing={e_flag}]", None, "too many interpretations")
+                    continue
+                vals = [rv for tr, rv, _ in runs if not any(x.kind == "raise" for x in tr)]
+                want = Lin.sym("D(A)") + Lin.c(want_e if e_flag else 0)
+                ok = len(vals) == 1 and vals[0] == want
+                und = len(vals) != 1 or not isinstance(vals[0], (Lin, MaxV))
+                ctx.ob(rid, g, g.node, f"get_distance_to_terminal({name}) charges each wrapper level [expansion_depthing={e_flag}]",
+                       True if ok else (None if und else False),
+                       "" if ok else f"distance of {name} is {vals[0] if vals else '?'!r}, expected {want!r}: a wrapper level is skipped "
+                                     f"(Annotated[list[T], ..] fields are reported one level too shallow in expansion-depthing mode)")
+    ctx.floor(rid, n, 9 if only else 40, "walker x nested-type interpretations")
 
 
 def unfiltered_rule(ctx: Ctx, rid: str) -> None:
     """Field types reach the wrapper-aware expansion unfiltered: a filter applied to the raw field types (before wrappers
-    are unwrapped) can only see the wrapper, not the symbols inside it."""
-    pre = ctx.prog.get_function(f"{GRAMMAR_MOD}:Grammar.preprocess")
+    are unwrapped) can only see the wrapper, not the symbols inside it.  The propagators are the functions that iterate
+    explode_generics(<parameter>); every call of a propagator is checked at the argument bound to that parameter (a local
+    name is followed to its single assignment)."""
+    prog = ctx.prog
+    eg = _find_walker(ctx, "explode_generics")
+    scope = [f for f in prog.functions.values() if f.module.name.startswith("geneticengine.grammar")
+             and isinstance(f.node, (ast.FunctionDef, ast.AsyncFunctionDef))]
+    props: dict[str, tuple[FunctionInfo, int]] = {}
+    for f in scope:
+        if f is eg:
+            continue
+        for c in walk_local(f.node):
+            if isinstance(c, ast.Call) and call_name(c) == eg.name and c.args and isinstance(c.args[0], ast.Name):
+                ps = [p_ for p_ in f.params if p_ != "self"]
+                if c.args[0].id in ps:
+                    props[f.name] = (f, ps.index(c.args[0].id))
     n = 0
-    for c in walk_local(pre.node, include_nested=True):
-        if isinstance(c, ast.Call) and call_name(c) == "process_reachability" and len(c.args) == 2:
+    for f in scope:
+        for c in walk_local(f.node, include_nested=False):
+            if not (isinstance(c, ast.Call) and call_name(c) in props):
+                continue
+            g, idx = props[call_name(c)]
+            a = c.args[idx] if len(c.args) > idx else next((k.value for k in c.keywords if k.arg == [p_ for p_ in g.params if p_ != "self"][idx]), None)
+            if a is None:
+                continue
             n += 1
-            a = c.args[1]
-            filt = isinstance(a, (ast.ListComp, ast.GeneratorExp)) and any(g.ifs for g in a.generators)
-            ctx.ob(rid, pre, c, f"reachability receives {norm(a)[:50]} unfiltered", not filt,
-                   "" if not filt else f"'{norm(a)[:80]}' filters the raw field types before wrappers are unwrapped: list[X], Annotated[list[X], ..] "
+            src = a
+            if isinstance(a, ast.Name):
+                defs = [d for d in walk_local(f.node) if isinstance(d, ast.Assign) and len(d.targets) == 1
+                        and isinstance(d.targets[0], ast.Name) and d.targets[0].id == a.id]
+                if len(defs) == 1:
+                    src = defs[0].value
+            filt = (isinstance(src, (ast.ListComp, ast.GeneratorExp, ast.SetComp)) and any(gen.ifs for gen in src.generators)) \
+                or (isinstance(src, ast.Call) and call_name(src) == "filter") \
+                or any(isinstance(x, ast.Call) and call_name(x) == "filter" for x in ast.walk(src))
+            ctx.ob(rid, f, c, f"reachability receives {norm(a)[:50]} unfiltered", not filt,
+                   "" if not filt else f"'{norm(src)[:80]}' filters the raw field types before wrappers are unwrapped: list[X], Annotated[list[X], ..] "
                                        f"and Union[..] fields are not in non_terminals themselves and are dropped, so a symbol whose only cycle "
                                        f"passes through such a field is missing from recursive_prods")
     ctx.floor(rid, n, 2, "reachability propagation calls")
@@ -155,13 +237,36 @@ def rule_r3(ctx: Ctx) -> None:
                     table.add(k.id)
     # (b) the terminal constant in preprocess: the (sym is int or ...) group that yields 0
     zero_group: set[str] = set()
-    for n in walk_local(pre.node):
-        if isinstance(n, ast.If):
-            names = {c.comparators[0].id for c in ast.walk(n.test) if isinstance(c, ast.Compare) and isinstance(c.ops[0], ast.Is)
-                     and isinstance(c.comparators[0], ast.Name) and c.comparators[0].id in ("int", "float", "str", "bool")}
-            sets0 = any(isinstance(a, ast.Assign) and isinstance(a.value, ast.Constant) and a.value.value == 0 for a in n.body)
-            if names and sets0:
-                zero_group = names
+    # preprocess and the helpers it calls (methods of Grammar, module-level functions)
+    fns = [pre]
+    for c in walk_local(pre.node, include_nested=True):
+        if isinstance(c, ast.Call):
+            t = ctx.res.resolve(pre, c)
+            if t.kind == "repo":
+                fns += [g for g in t.targets if g.module.name.startswith("geneticengine.grammar") and g not in fns]
+
+    def base_names(test: ast.AST) -> set[str]:
+        out = {c.comparators[0].id for c in ast.walk(test) if isinstance(c, ast.Compare) and isinstance(c.ops[0], (ast.Is, ast.Eq))
+               and isinstance(c.comparators[0], ast.Name) and c.comparators[0].id in ("int", "float", "str", "bool")}
+        for c in ast.walk(test):
+            if isinstance(c, ast.Compare) and isinstance(c.ops[0], ast.In) and isinstance(c.comparators[0], (ast.List, ast.Tuple, ast.Set)):
+                out |= {e.id for e in c.comparators[0].elts if isinstance(e, ast.Name) and e.id in ("int", "float", "str", "bool")}
+        return out
+
+    def is_zero(e: Optional[ast.AST]) -> bool:
+        return isinstance(e, ast.Constant) and e.value == 0 and not isinstance(e.value, bool)
+
+    for g in fns:
+        for n in walk_local(g.node, include_nested=True):
+            if isinstance(n, ast.If):
+                names = base_names(n.test)
+                sets0 = any((isinstance(a, ast.Assign) and is_zero(a.value)) or (isinstance(a, ast.Return) and is_zero(a.value)) for a in n.body)
+                if names and sets0:
+                    zero_group = names
+            elif isinstance(n, ast.IfExp):
+                names = base_names(n.test)
+                if names and is_zero(n.body):
+                    zero_group = names
     # (c) base types the tree creator produces without consuming a level
     cn = prog.get_function("geneticengine.representations.tree.initializations:create_node")
     produced: set[str] = set()
